@@ -1,7 +1,9 @@
 import Driver.Stream
 import Driver.Recovery
+import Driver.H3Validate
 
 structure World where
+  h3v : Drv.H3VW := {}
   stream : Drv.StreamW := {}
   recov : Drv.RecW := {}
 
@@ -16,6 +18,9 @@ def step (w : World) (line : String) : World × String :=
     else if t.startsWith "rec." then
       let (s, o) := Drv.stepRecovery w.recov toks
       ({ w with recov := s }, o)
+    else if t.startsWith "h3v." then
+      let (s, o) := Drv.stepH3V w.h3v toks
+      ({ w with h3v := s }, o)
     else (w, "bad-op")
 
 partial def loop (hin hout : IO.FS.Stream) (w : World) : IO Unit := do
